@@ -47,6 +47,7 @@ type workKind struct {
 	locked  bool
 	minFrames int
 	run     func(c *ctl, id int)
+	direct  bool // run is called from the starting goroutine itself (it spawns and returns)
 }
 
 //go:noinline
@@ -161,21 +162,36 @@ func parkGeneric[T any](c *ctl, v T) T {
 	return v
 }
 
+// generic goroutines are started from one generic launcher so that all
+// instantiations share every frame and the creation site.
+//
+//go:noinline
+func launchGeneric[T any](c *ctl, v T) {
+	c.done.Add(1)
+	go parkGenericTop(c, v)
+}
+
+//go:noinline
+func parkGenericTop[T any](c *ctl, v T) {
+	defer c.done.Done()
+	parkGeneric(c, v)
+}
+
 var workKinds = []workKind{
-	{"chan-receive", "parkChanRecv", []string{"chan receive"}, false, 1, parkChanRecv},
-	{"chan-send", "parkChanSend", []string{"chan send"}, false, 1, parkChanSend},
-	{"select", "parkSelect", []string{"select"}, false, 1, parkSelect},
-	{"mutex", "parkMutex", []string{"sync.Mutex.Lock", "semacquire"}, false, 1, parkMutex},
-	{"cond", "parkCond", []string{"sync.Cond.Wait"}, false, 1, parkCond},
-	{"waitgroup", "parkWaitGroup", []string{"semacquire", "sync.WaitGroup.Wait"}, false, 1, parkWaitGroup},
-	{"sleep", "parkSleep", []string{"sleep"}, false, 1, parkSleep},
-	{"io-wait", "parkPipeRead", []string{"IO wait"}, false, 1, parkPipeRead},
-	{"locked-to-thread", "parkLocked", []string{"chan receive"}, true, 1, parkLocked},
-	{"deep-recursion", "parkDeep", []string{"chan receive"}, false, 100, func(c *ctl, id int) { parkDeep(c, id, 200) }},
-	{"exited", "", nil, false, 0, func(c *ctl, id int) { c.ready.Done() }},
-	{"generic-int", "parkGeneric[...]", []string{"chan receive"}, false, 1, func(c *ctl, id int) { parkGeneric(c, id) }},
-	{"generic-struct", "parkGeneric[...]", []string{"chan receive"}, false, 1, func(c *ctl, id int) { parkGeneric(c, pair{id, 2}) }},
-	{"generic-string", "parkGeneric[...]", []string{"chan receive"}, false, 1, func(c *ctl, id int) { parkGeneric(c, "abc") }},
+	{"chan-receive", "parkChanRecv", []string{"chan receive"}, false, 1, parkChanRecv, false},
+	{"chan-send", "parkChanSend", []string{"chan send"}, false, 1, parkChanSend, false},
+	{"select", "parkSelect", []string{"select"}, false, 1, parkSelect, false},
+	{"mutex", "parkMutex", []string{"sync.Mutex.Lock", "semacquire"}, false, 1, parkMutex, false},
+	{"cond", "parkCond", []string{"sync.Cond.Wait"}, false, 1, parkCond, false},
+	{"waitgroup", "parkWaitGroup", []string{"semacquire", "sync.WaitGroup.Wait"}, false, 1, parkWaitGroup, false},
+	{"sleep", "parkSleep", []string{"sleep"}, false, 1, parkSleep, false},
+	{"io-wait", "parkPipeRead", []string{"IO wait"}, false, 1, parkPipeRead, false},
+	{"locked-to-thread", "parkLocked", []string{"chan receive"}, true, 1, parkLocked, false},
+	{"deep-recursion", "parkDeep", []string{"chan receive"}, false, 100, func(c *ctl, id int) { parkDeep(c, id, 200) }, false},
+	{"exited", "", nil, false, 0, func(c *ctl, id int) { c.ready.Done() }, false},
+	{"generic-int", "parkGeneric[...]", []string{"chan receive"}, false, 1, func(c *ctl, id int) { launchGeneric(c, id) }, true},
+	{"generic-struct", "parkGeneric[...]", []string{"chan receive"}, false, 1, func(c *ctl, id int) { launchGeneric(c, pair{id, 2}) }, true},
+	{"generic-string", "parkGeneric[...]", []string{"chan receive"}, false, 1, func(c *ctl, id int) { launchGeneric(c, "abc") }, true},
 }
 
 //go:noinline
@@ -222,7 +238,11 @@ func startWorkload(kinds []int) *workload {
 	c := &ctl{release: make(chan struct{}), ready: &sync.WaitGroup{}, done: &sync.WaitGroup{}}
 	c.ready.Add(len(kinds))
 	for i, k := range kinds {
-		launch(c, &workKinds[k], 1000+i)
+		if workKinds[k].direct {
+			workKinds[k].run(c, 1000+i)
+		} else {
+			launch(c, &workKinds[k], 1000+i)
+		}
 	}
 	c.ready.Wait()
 	settle()
@@ -349,18 +369,22 @@ func checkLive(kinds []int, key string) *h.Viol {
 			}
 			// frames in order: marker ... launch.func1 at the bottom (unless elided)
 			last := g.Stack.Calls[len(g.Stack.Calls)-1]
-			if !strings.Contains(last.Func.Name, "launch.func") {
+			wantBottom, wantCreator := "launch.func", "launch"
+			if strings.HasPrefix(k.marker, "parkGeneric") {
+				wantBottom, wantCreator = "parkGenericTop[...]", "launchGeneric[...]"
+			}
+			if !strings.Contains(last.Func.Name, wantBottom) {
 				return mk("bottom-frame:"+k.name, fmt.Sprintf("goroutine parked in %s: bottom frame is %q, want the launcher closure", k.marker, last.Func.Name))
 			}
 			if !strings.HasSuffix(last.SrcName, ".go") || last.Line <= 0 {
 				return mk("bottom-frame-file:"+k.name, fmt.Sprintf("bottom frame file %q line %d", last.SrcName, last.Line))
 			}
-			if len(g.CreatedBy.Calls) != 1 || g.CreatedBy.Calls[0].Func.Name != "launch" {
+			if len(g.CreatedBy.Calls) != 1 || g.CreatedBy.Calls[0].Func.Name != wantCreator {
 				cb := "<none>"
 				if len(g.CreatedBy.Calls) == 1 {
 					cb = g.CreatedBy.Calls[0].Func.Name
 				}
-				return mk("creator:"+k.name, fmt.Sprintf("goroutine parked in %s: creator %q, want launch", k.marker, cb))
+				return mk("creator:"+k.name, fmt.Sprintf("goroutine parked in %s: creator %q, want %s", k.marker, cb, wantCreator))
 			}
 		}
 	}
@@ -543,7 +567,7 @@ func TestVerifC20(t *testing.T) {
 		checkRequests(r, []int{0, 1, 2, 3, 8}, "five-goroutines")
 	}
 	if r.Shard == 2%r.N {
-		checkRequests(r, []int{0, 0, 0, 4, 5, 6, 7, 9, 9, 10, 11, 12, 13, 12, 11}, "fifteen-goroutines")
+		checkRequests(r, []int{0, 0, 0, 4, 5, 6, 7, 9, 9, 10, 12, 11, 13, 11, 12}, "fifteen-goroutines")
 	}
 }
 
@@ -607,7 +631,11 @@ func startWorkloadNoSettle(kinds []int) *workload {
 	c := &ctl{release: make(chan struct{}), ready: &sync.WaitGroup{}, done: &sync.WaitGroup{}}
 	c.ready.Add(len(kinds))
 	for i, k := range kinds {
-		launch(c, &workKinds[k], 1000+i)
+		if workKinds[k].direct {
+			workKinds[k].run(c, 1000+i)
+		} else {
+			launch(c, &workKinds[k], 1000+i)
+		}
 	}
 	c.ready.Wait()
 	return &workload{c, kinds}
